@@ -326,3 +326,40 @@ func CloseBlock(h *sim.History, rounds, seconds int64) (sim.Outcome, error) {
 	h.NextBlock(rounds, seconds)
 	return o, nil
 }
+
+// Attach rebuilds the World handle on a history whose base state already contains the registered nodes
+// (no transaction is executed).
+func Attach(h *sim.History) (*World, error) {
+	s := h.S
+	w := &World{S: s, byID: map[string]*Node{}}
+	mk := func(tp Provider, i int, id string) (*Node, error) {
+		pool, role, label := s.MB.Miners, "mdelegate", "miner"
+		if tp == Sharder {
+			pool, role, label = s.MB.Sharders, "sdelegate", "sharder"
+		}
+		mbn := pool.GetNode(id)
+		if mbn == nil {
+			return nil, fmt.Errorf("simminer: %s %s is not in the magic block", label, id)
+		}
+		n := &Node{Type: tp, Wallet: &sim.Wallet{Name: fmt.Sprintf("%s%d", label, i), ID: id, PublicKey: mbn.PublicKey},
+			Delegate: sim.NewWallet(role, i), N2NHost: mbn.N2NHost, Host: mbn.Host, Port: mbn.Port}
+		h.Know(n.Delegate.ID, n.Delegate.Name)
+		w.byID[id] = n
+		return n, nil
+	}
+	for i, id := range s.Miners {
+		n, err := mk(Miner, i, id)
+		if err != nil {
+			return nil, err
+		}
+		w.Miners = append(w.Miners, n)
+	}
+	for i, id := range s.Sharders {
+		n, err := mk(Sharder, i, id)
+		if err != nil {
+			return nil, err
+		}
+		w.Sharders = append(w.Sharders, n)
+	}
+	return w, nil
+}
